@@ -182,7 +182,32 @@ def _load_alias():
     return [getattr(mod, n) for n in names]
 
 
-PROCS = _load_alias() + [par_ok, par_read_shared, par_nested_ok, par_in_seq_racy, par_in_seq_ok, par_under_if_racy,
+# ---- a loop whose body calls a procedure that has an equivalent, configuration-writing variant (call_eqv, then
+#      parallelize_loop: every iteration would write the same configuration field)
+@config
+class ParCfg:
+    scale: f32
+
+
+@proc
+def par_scal1(alpha: f32, x: [f32][1]):
+    x[0] = x[0] * alpha
+
+
+@proc
+def par_calls_scal(n: size, x: f32[n], a: f32):
+    for i in seq(0, n):
+        par_scal1(a, x[i:i + 1])
+
+
+def _par_eqv():
+    from exo.stdlib.scheduling import bind_config, rename
+    return {"par_scal1_cfg": rename(bind_config(par_scal1, par_scal1.find("alpha"), ParCfg, "scale"), "par_scal1_cfg")}
+
+
+EQV_PROCS = _par_eqv()
+
+PROCS = _load_alias() + [par_calls_scal, par_ok, par_read_shared, par_nested_ok, par_in_seq_racy, par_in_seq_ok, par_under_if_racy,
          par_write_same, par_reduce, par_neighbour, par_inplace_neighbour, par_tmp, par_shared_tmp,
          par_call_ok, par_call_racy, calls_par_callee, par_strided, par_overlap_mod, par_deep]
-CONFIGS = []
+CONFIGS = [ParCfg]
